@@ -1264,6 +1264,20 @@ class _MParser:
         return parts
 
     def expr(self):
+        """primary ('+' primary)*: '+' is only known as concatenation onto a string scalar ("abc" + char(10) + "def": a double-quoted
+        string plus a string or character vector appends it; between character vectors or numbers '+' is arithmetic - not emitted)."""
+        v = self.primary()
+        while True:
+            self.ws()
+            if self.s[self.i:self.i + 1] != "+":
+                return v
+            self.i += 1
+            w = self.primary()
+            if v["$"] != "str" or v.get("q") != '"' or w["$"] != "str":
+                self.fail("'+' other than string scalar + text", MatlabUnsupported)
+            v = {"$": "str", "v": v["v"] + w["v"], "q": '"'}
+
+    def primary(self):
         self.ws()
         if self.i >= len(self.s):
             self.fail("expression expected")
@@ -1318,6 +1332,11 @@ class _MParser:
             if args:
                 self.fail("struct(...) with arguments", MatlabUnsupported)
             return {"$": "struct", "f": {}}
+        if fn == "char":
+            # char(code): the character with that code (a character vector of length 1)
+            if len(args) != 1 or args[0]["$"] != "num" or args[0]["v"] != int(args[0]["v"]) or not 0 <= args[0]["v"] <= 0x10FFFF:
+                self.fail("char(x) with x not a character code", MatlabUnsupported)
+            return {"$": "str", "v": chr(int(args[0]["v"])), "q": "'"}
         if fn in M_TYPES:
             if len(args) != 1 or args[0]["$"] != "num":
                 self.fail(f"{fn}(x) with non-numeric x", MatlabUnsupported)
@@ -1434,6 +1453,9 @@ def matlab_run(text, root="RTMA", ignore_undefined=()):
         lhs = p.path()
         p.ws()
         if p.s[p.i:p.i + 1] != "=":
+            if "=" in p.s[p.i:] and p.s[p.i:p.i + 1] not in ("(", "{"):
+                # `X.a-b = 1;`, `X.a b = 1;`: an expression (or two words) where MATLAB wants the target of the assignment
+                raise MatlabSyntaxError("the left-hand side of the assignment is not a variable or field reference", i, raw)
             raise MatlabUnsupported("statement is not an assignment", i, raw)
         p.i += 1
         try:
